@@ -192,6 +192,126 @@ fn partial_findings(s: &dyn Subject, p: &Prepared, utf8: bool, input: &[u8], ful
     f
 }
 
+/// C07 on the callbacks family (callbacks x partial lexing): every callback decides from the matched text alone, so a partial
+/// lexer has to commit exactly the one-shot items of the same build - results, payloads, error codes and callback
+/// invocations included. A callback that bumps takes its chars from `remainder()`, which a partial buffer cuts short;
+/// items whose match ends within 8 bytes (two chars) of the split are therefore not compared in definitions with bumps.
+fn partial_cb_findings(s: &dyn Subject, sd: &SubjectDef, utf8: bool, input: &[u8], full: &Obs, run: Option<&mut Run>, key: u64) -> Vec<Finding> {
+    let mut f = Vec::new();
+    let len = input.len();
+    let has_bump = sd.def.leaves().iter().any(|(p, _)| p.callback.as_ref().map(|c| c.bump > 0).unwrap_or(false));
+    let paired = |o: &Obs| -> Vec<(Item, u64)> {
+        let (mut vi, mut ei) = (0usize, 0usize);
+        o.items
+            .iter()
+            .map(|it| {
+                if it.kind.is_some() {
+                    vi += 1;
+                    (*it, o.vals.get(vi - 1).copied().unwrap_or(u64::MAX))
+                } else {
+                    ei += 1;
+                    (*it, o.err_codes.get(ei - 1).copied().unwrap_or(u64::MAX))
+                }
+            })
+            .collect()
+    };
+    let full_p = paired(full);
+    let mut nontrivial = 0u64;
+    let mut evals = 0u64;
+    let is_b = |k: usize| !utf8 || k == len || (input[k] & 0xC0) != 0x80;
+    for k in 0..=len {
+        if !is_b(k) {
+            continue;
+        }
+        let pre = &input[..k];
+        let part = lex_catch(s, 0, pre, Mode { partial: true, ..Mode::default() });
+        evals += 1;
+        if !part.anomalies.is_empty() {
+            f.push(fnd("C07", k, format!("partial lexer (callbacks) over {} anomalies {:?}", show(pre), part.anomalies)));
+            break;
+        }
+        if !part.ended {
+            f.push(fnd("C07", k, format!("partial lexer (callbacks) over {} did not return None", show(pre))));
+            break;
+        }
+        let part_p = paired(&part);
+        let n = part_p.len();
+        // the first callback invocation that may have seen a truncated remainder (it may also have decided to skip):
+        // nothing from its match on is compared
+        let trunc_at = if has_bump { part.cbs.iter().find(|c| c.2 + 8 > k).map(|c| c.1) } else { None };
+        let cut = match trunc_at {
+            Some(t) => part_p.iter().position(|(it, _)| it.end > t).unwrap_or(n),
+            None => n,
+        };
+        if full_p.len() < cut || full_p[..cut] != part_p[..cut] {
+            f.push(fnd("C07", k, format!("partial lexer over {} (split {k} of {}) committed (item, payload / error code) {:?} which is not a leading run of the one-shot {:?}", show(pre), show(input), &part_p[..cut], full_p)));
+            break;
+        }
+        // callback invocations: those of the compared items are a leading run of the one-shot log
+        let upto = trunc_at.unwrap_or(k);
+        let part_cbs: Vec<_> = part.cbs.iter().filter(|c| c.2 <= upto).collect();
+        let agree = part_cbs.iter().zip(full.cbs.iter()).all(|(a, b)| *a == b);
+        if !agree || part_cbs.len() > full.cbs.len() {
+            f.push(fnd("C07", k, format!("partial lexer over {} (split {k}): callback invocations {:?} are not a leading run of the one-shot invocations {:?}", show(pre), part_cbs, full.cbs)));
+            break;
+        }
+        if trunc_at.is_some() {
+            continue;
+        }
+        // position at None, and the rest re-lexes to the remaining one-shot items (spans and results; payloads and error
+        // codes may hold absolute positions)
+        let (ps, pe) = part.final_span;
+        if ps != pe || pe > k {
+            f.push(fnd("C07", k, format!("partial lexer (callbacks) over {} reports span {ps}..{pe} at None (must be empty, inside the prefix)", show(pre))));
+            break;
+        }
+        let rest = one_shot(s, &input[pe..]);
+        evals += 1;
+        if shifted(&rest.items, pe) != full.items[n..] {
+            f.push(fnd("C07", k, format!("after partial lexing (callbacks) of {} stopped at {pe}, lexing the rest of {} from {pe} gives {:?}, expected the remaining one-shot items {:?}", show(pre), show(input), shifted(&rest.items, pe), &full.items[n..])));
+            break;
+        }
+        let inside = full.items.iter().any(|i| i.start < k && k < i.end) || full.cbs.iter().any(|c| c.1 < k && k < c.2);
+        if inside || pe < k {
+            nontrivial += 1;
+        }
+    }
+    // chunked history (book loop) for bump-free definitions
+    if f.is_empty() && len > 0 && !has_bump {
+        let sizes = [1usize, 3, 8, 2, 9, 5];
+        let mut h = fnv(input) as usize;
+        let mut pos = 0usize;
+        let mut avail = 0usize;
+        let mut got: Vec<Item> = Vec::new();
+        let mut guard = 0;
+        while avail < len && guard < 4 * len + 8 {
+            guard += 1;
+            avail = (avail + sizes[h % sizes.len()]).min(len);
+            h = h / 6 + 0x9e37;
+            while utf8 && avail < len && (input[avail] & 0xC0) == 0x80 {
+                avail += 1;
+            }
+            let part = lex_catch(s, 0, &input[pos..avail], Mode { partial: true, ..Mode::default() });
+            evals += 1;
+            got.extend(shifted(&part.items, pos));
+            pos += part.final_span.1;
+        }
+        let rest = one_shot(s, &input[pos..]);
+        got.extend(shifted(&rest.items, pos));
+        if got != full.items {
+            f.push(fnd("C07", 0, format!("chunked partial lexing (callbacks) of {} gives {:?}, one-shot gives {:?}", show(input), got, full.items)));
+        }
+    }
+    if let Some(run) = run {
+        run.eval(evals);
+        run.count("callback_family_inputs", 1);
+        for i in 0..nontrivial {
+            run.nontrivial(key ^ (i + 1).wrapping_mul(0x9E3779B97F4A7C15));
+        }
+    }
+    f
+}
+
 /// C20: per attempt, read offsets never decrease, read count is linear in the bytes examined, each
 /// attempt starts reading at its own start.
 fn trace_findings(obs: &Obs, run: Option<&mut Run>, key: u64) -> Vec<Finding> {
@@ -520,7 +640,11 @@ fn check_input(prop: &str, s: &dyn Subject, sd: &SubjectDef, p: &Prepared, input
                 }
             }
             "C07" => {
-                f.extend(partial_findings(s, p, utf8, input, &obs, run.as_deref_mut(), key));
+                if sd.family == "callbacks" {
+                    f.extend(partial_cb_findings(s, sd, utf8, input, &obs, run.as_deref_mut(), key));
+                } else {
+                    f.extend(partial_findings(s, p, utf8, input, &obs, run.as_deref_mut(), key));
+                }
             }
             "C12" => {
                 if utf8 && sd.twin {
@@ -639,6 +763,7 @@ pub fn stress_inputs(sd: &SubjectDef, idx_in_family: usize, big: usize, quadrati
 fn families_for(prop: &str) -> &'static [&'static str] {
     match prop {
         "C13" => &["callbacks"],
+        "C07" => &["core", "callbacks"],
         "C20" => &["core", "callbacks", "stress", "stress-cb"],
         "C11" => &["sub"],
         "C01" | "C12" | "C06" | "C05" => &["core", "sub"],
@@ -654,7 +779,7 @@ fn rule_for(prop: &str) -> String {
         "C03" => "oracle = tiling/termination invariants with skipped regions logged by skip callbacks; non-trivial = inputs empty / ending in a skip / ending in an error",
         "C04" => "oracle = char-boundary predicate on every observable span, then slice()/remainder() equality; non-trivial = distinct (definition,input) with an item boundary adjacent to a multi-byte char",
         "C05" => "oracle = no panic / no sanitizer report, exactly sized heap inputs; non-trivial = distinct (definition,input) whose last item ends exactly at the end of the allocation",
-        "C07" => "every split point of every input: partial items are a leading run of the one-shot items of the input and of 6 alternative continuations, empty span at None, rest re-lexes to the remaining items, chunked history reproduces the stream (same build); non-trivial = splits strictly inside an item/skip or where the partial lexer stopped before the split",
+        "C07" => "every split point of every input: partial items are a leading run of the one-shot items of the input and of 6 alternative continuations, empty span at None, rest re-lexes to the remaining items, chunked history reproduces the stream (same build); on the callbacks family (decisions are functions of the matched text): committed items with payloads / error codes and the callback invocations are a leading run of the one-shot ones, the rest re-lexes, chunked history for bump-free definitions (a bumping callback near the split sees a cut remainder: nothing from its match on is compared); non-trivial = splits strictly inside an item/skip or where the partial lexer stopped before the split",
         "C11" => "subpattern family on compiled lexers: definitions with (?&name) references (nested, str and byte-string subpatterns, str and byte mode); oracle = reference lexer built from the AST-inlined patterns; non-trivial = attempts with >= 2 matching patterns / several match ends",
         "C12" => "str-mode definitions compiled twice (utf8 default / utf8 = false) in one module, same valid UTF-8 input to both; oracle: Ok tokens with spans equal and the sets of bytes covered by errors equal (twin against twin); non-trivial = distinct (definition,input) with a multi-byte char inside or next to an error",
         "C13" => "callbacks family: every pattern carries a callback (return type from the whole documented table, decision = pure function of salt and matched text, bump of 0-2 chars, 6 attachment forms (function path or inline closure, positional or callback =, closure bodies that start with a parenthesised group or are a block), optional error callback, custom error type with From); oracle: model driven by the callback-free twin T0 (one unit variant per leaf) restarted after every item at the position the model computes, decisions applied per the documented table: items, spans, payloads, error codes, callback log (exactly one entry per winning match with span/slice of the match, bumped bytes) and error-callback log must be equal; plus the T1 twin where always-Skip callbacks are replaced by skip patterns; non-trivial = distinct (definition,input) with a non-Emit decision, a bump > 0, or a Skip followed by a restart",
